@@ -113,12 +113,12 @@ def parse_list(t, f=lambda x: x):
 
 
 class Step:
-    __slots__ = ("idx", "op", "optoks", "intx", "aborted", "res", "msgs", "st", "q", "fn", "lines", "pre", "post", "note", "tx")
+    __slots__ = ("idx", "op", "optoks", "intx", "aborted", "res", "msgs", "st", "q", "fn", "lines", "pre", "post", "note", "tx", "after")
 
     def __init__(self):
         self.idx = 0; self.op = ""; self.optoks = []; self.intx = False; self.aborted = False
         self.res = None; self.msgs = []; self.st = None; self.q = []; self.fn = None; self.lines = []
-        self.pre = None; self.post = None; self.note = None; self.tx = 0
+        self.pre = None; self.post = None; self.note = None; self.tx = 0; self.after = None
 
 
 def parse_state(lines):
@@ -180,11 +180,14 @@ def parse_history(op_lines, obs_lines):
         if t[0] == "tx_begin":
             intx = True; txsteps = []; working = committed; txid += 1; continue
         if t[0] == "tx_commit":
-            intx = False; committed = working; continue
+            intx = False; committed = working
+            for s in txsteps:
+                s.after = committed
+            continue
         if t[0] == "tx_abort":
             intx = False; working = committed
             for s in txsteps:
-                s.aborted = True
+                s.aborted = True; s.after = committed
             continue
         if t[0].startswith("#") or t[0] == "cfg":
             continue
@@ -210,7 +213,7 @@ def parse_history(op_lines, obs_lines):
             working = s.st
         s.post = working
         if not intx:
-            committed = working
+            committed = working; s.after = committed
         steps.append(s)
         if intx:
             txsteps.append(s)
